@@ -253,9 +253,6 @@ def gen_plain(rng, codec):
         used.add(s)
         streams.append(gen_foreign_stream(rng, s))
     pages = interleave(rng, streams, bos_first=rng.random() < 0.8) if len(streams) > 1 else st["pages"]
-    # the codec's stream must come first among streams that could be mistaken for it: foreign ones are random bytes
-    if pages[0]["serial"] != serial and codec in ("speex", "flac"):
-        pass
     data = b"".join(render_page(p) for p in pages)
     return data, dict(codec=codec, serial=serial, stream=st, pages=pages, nstreams=len(streams))
 
@@ -438,9 +435,6 @@ def classes(codec):
     c = CODECS[codec]
     m = importlib.import_module("mutagen." + c["mod"])
     return getattr(m, c["cls"]), getattr(m, c["tags"])
-
-
-_DONOR = {}
 
 
 def donor(codec):
